@@ -65,7 +65,7 @@ impl Property for C01 {
     fn strategy(&self, tier: Tier) -> BoxedStrategy<WithMid<RawSem>> {
         // ~1 % mid-size cases; the reference evaluator gets 0.6 s (quick) / 2.5 s (thorough) per case,
         // beyond that the case is skipped and counted
-        with_mid(raw_sem(tier.pick(3, 4), 1..=1, 5, tier.pick(16, 24)), 99, 1, tier.pick(600, 2500))
+        with_mid(raw_sem(tier.pick(3, 4), 1..=1, 5, tier.pick(16, 24)), tier.pick(99, 299), 1, tier.pick(600, 2500))
     }
     fn check_raw(&self, raw: &WithMid<RawSem>) -> Verdict {
         match raw {
